@@ -70,7 +70,7 @@ def exc_shape(e):
 def write_kwargs(opts):
     kw = {}
     for k in ("row_group_offsets", "compression", "file_scheme", "has_nulls", "write_index", "partition_on",
-              "object_encoding", "times", "stats", "custom_metadata", "append"):
+              "object_encoding", "times", "stats", "custom_metadata", "append", "fixed_text"):
         if k in opts and opts[k] is not None or k in ("compression",) and k in opts:
             kw[k] = opts[k]
     if kw.get("compression", 0) is None:
